@@ -841,7 +841,7 @@ class BlockChain(object):
         assert(offset_base % self.blocks[self.pinned_block_idx].alignment == 0)
 
         self.offset_min = offset_base
-        for block in self.blocks[:self.pinned_block_idx - 1:-1]:
+        for block in reversed(self.blocks[:self.pinned_block_idx]):
             self.offset_min -= block.max_size + \
                 (block.alignment - block.max_size) % block.alignment
 
@@ -870,13 +870,14 @@ class BlockChain(object):
         if offset % pinned_block.alignment != 0:
             raise RuntimeError('Bad alignment')
 
-        for block in self.blocks[:self.pinned_block_idx - 1:-1]:
+        for block in reversed(self.blocks[:self.pinned_block_idx]):
             new_offset = offset - block.size
             new_offset = new_offset - new_offset % pinned_block.alignment
             fix_loc_offset(self.loc_db,
                            block.loc_key,
                            new_offset,
                            modified_loc_keys)
+            offset = new_offset
 
         # Propagate offset to blocks after pinned block
         offset = self.loc_db.get_location_offset(pinned_block.loc_key) + pinned_block.size
